@@ -150,6 +150,31 @@ def compliant (p : ReqPath) : Bool := (missing p).isEmpty
 def deviations (ps : List ReqPath) : List (Text × Aspect) :=
   ps.flatMap (fun p => (missing p).map (fun a => (p.fn, a)))
 
+/-! ## The table as it was extracted before the D31 repair (literal value, for the record)
+
+  Up to /repo commit ca86715 three request builders ignored part of the customisation: `sendResponseToServer`
+  (no path override, no before-request call, `context.Background()`), `terminateSession` (bare `t.httpClient.Do`, no
+  before-request call) and the legacy `sendResponseMessage` (no before-request call, `context.Background()`).
+  `Mcp.Props.C19` keeps the witness theorems about this value; they document the bad region of the family. -/
+
+def okPath (c : Client) (fn : Text) (v : Verb) (u : Url) (s : Bool) (x : CtxSrc) (via : Via) : ReqPath :=
+  { client := c, fn := fn, verb := v, url := u, headersLoop := true, sessionHeader := s, beforeCalls := 1, beforeCtx := x,
+    beforeErrReturns := true, beforeOrdered := true, via := via, usesClient := true }
+
+def noBefore (p : ReqPath) : ReqPath :=
+  { p with beforeCalls := 0, beforeCtx := .none, beforeErrReturns := false, beforeOrdered := false }
+
+def preFixPaths : List ReqPath :=
+  [ okPath .sse t!"sendNotification" .post .endpoint false .caller .handler,
+    okPath .sse t!"sendRequestInternal" .post .endpoint false .caller .handler,
+    noBefore (okPath .sse t!"sendResponseMessage" .post .endpoint false .none .handler),
+    okPath .sse t!"start" .get .baseOverride false .handshake .handler,
+    okPath .streamable t!"connectGetSSE" .get .serverOverride true .handshake .handler,
+    okPath .streamable t!"send" .post .serverOverride true .caller .handler,
+    okPath .streamable t!"sendNotification" .post .serverOverride true .caller .handlerNilFallback,
+    noBefore (okPath .streamable t!"sendResponseToServer" .post .serverPlain true .none .handler),
+    noBefore (okPath .streamable t!"terminateSession" .delete .serverOverride true .none .bare) ]
+
 /-! ## Behavioural model: what is observed for one emitted request -/
 
 /-- Client configuration: static headers / before-request function / custom request handler / custom path /
